@@ -14,7 +14,24 @@ Decided structurally:
                       replaces (old removed, new written for every element)
   R5 read-after-write every success value is the result of re-reading the layer after the last mutation
   R6 scope agreement  writer and reader of the env agree on all four scopes (shared with C03.R1)
-Not decided: equality of on-disk bytes with the callback's values (toml / fs are trusted).
+  R7 builder          LayerResultBuilder (how callbacks assemble what they return) carries every value unchanged
+Deepening round (what the data is *carried* through, stated per dispatch row on the interprocedural effects):
+  R1 <row>/errors-propagate       a failure of any mutation / fallible callback on the row ends handle_layer (no `.ok()`,
+                                  `let _ =`, `unwrap_or(..)`; not-found tolerance only around removals; the reader's failure
+                                  kinds are dispatched on by design)
+  R1 <row>/types-after-callbacks  the `types()` call whose value is written runs after every `&mut self` callback of the row
+  R1 <row>/confined, Keep/frame-execd   nothing outside <name>/, <name>.toml, <name>.sbom.* is mutated; keep leaves exec.d alone
+  R3 <row>/toml-types|toml-metadata     the TOML written last on the row serialises {types: Some(layer.types()), metadata:
+                                  result.metadata | existing} whatever writer routine was used (the trait writer,
+                                  shared::write_layer, replace_layer_types ...)
+  R3 <row>/callback-arg/<cb>      create gets the layer directory, update / strategy the data read from disk, migrate its metadata
+  R4 writer/<replace>/only-switch nothing but the Keep/Replace switch decides whether the replace routine runs
+  R4 replace_exec_d/copy-every|copy-source   every program of the set is copied from its own path (no skipped iteration)
+  R4 sbom-path/spec               <name>.sbom.<cdx.json|spdx.json|syft.json> per format (CNB spec table)
+  R5 reader/*                     the reader's LayerData is {name asked for, <layers>/<name>, unwrap(read_from_layer_dir(dir)),
+                                  parsed <name>.toml} on the success-payload normal form (H.unwrap_n); R5 entry/passthrough
+Not decided: equality of on-disk bytes with the callback's values (toml / fs are trusted); the env file layout inside
+<layer>/env* beyond scope agreement (C03 decides it: suffixes, stale files, raw bytes, per-file completeness).
 
 All effect-based rules (R1, R2, R4, R5, R6) run on C02_helpers.VecEffects: the interprocedural effect enumerator of
 lib.effects extended with the two ways a Vec local carries work inside a function (a (dir, delta) table grown by
@@ -24,7 +41,7 @@ which path, not on recursion vs. work-list or four calls vs. one table.
 """
 from . import layer_env_common as L
 from . import C02_helpers as H
-from .lib.effects import Effects, outcomes, MUTATING, REMOVING
+from .lib.effects import Effects, Link, outcomes, MUTATING, REMOVING
 from .lib.guards import conditions
 from .lib.paths import sbom_formats_covered, LayerPaths, cls_str, strip
 from .lib.value import vstr, walk
@@ -35,6 +52,12 @@ RL = 'libcnb::layer::trait_api::handling::read_layer'
 STRAT = 'libcnb::layer::trait_api::ExistingLayerStrategy'
 MIGR = 'libcnb::layer::trait_api::MetadataMigration'
 T = 'libcnb::layer::trait_api::Layer::'
+ENTRY = r'^libcnb::build::BuildContext::<B>::handle_layer$'
+# effects that remove / replace / re-permission the path they are applied to
+DIR_TOUCH = ('REMOVE_DIR', 'REMOVE_TREE', 'REMOVE_FILE', 'RENAME', 'CHMOD')
+# CNB spec: <layers>/<layer>.sbom.<ext>, one ext per supported media type
+SBOM_EXT = {'CycloneDxJson': 'cdx.json', 'SpdxJson': 'spdx.json', 'SyftJson': 'syft.json'}
+FALLIBLE_CBS = ('create', 'update', 'existing_layer_strategy', 'migrate_incompatible_metadata')
 
 
 def cb_names(effs):
@@ -57,6 +80,223 @@ def is_field_of_call(v, field, callname):
     return v[0] == 'field' and v[2] == field and find_call(v[1], callname) is not None and strip(v[1])[0] in ('call', 'unwrap')
 
 
+def OPAQUE():
+    """never looked into when helpers are made transparent: the reader (its result stands for "what is on disk") and the
+    user callbacks (trait methods with a default body are still whatever the buildpack's layer defines)"""
+    return (RL,) + tuple(T + m for m in FALLIBLE_CBS + ('types',))
+
+
+def _toml_serialised(v):
+    """x of `toml::to_string(x)` (success payload) or None"""
+    import re
+    v = strip(v)
+    if v[0] == 'call' and re.match(r'^toml::(ser::)?to_(string|string_pretty|vec)$', v[1]) and len(v[2]) == 1:
+        return v[2][0]
+    return None
+
+
+def _is_types_call(v):
+    v = strip(v)
+    return v[0] == 'call' and v[1] == T + 'types'
+
+
+def row_carries(rep, prog, sl, E, LP, ROLES, r, tag, where, o, must, may):
+    """per dispatch row: failures of everything that mutates / every fallible callback end the call; the callbacks get
+    the layer's own path / the data read from disk; the TOML finally written carries types <- layer.types() (asked after
+    the last `&mut self` callback) and metadata <- the callback's result (create / update) or the existing one (keep)"""
+    tolerant = tuple(x for x in (ROLES.get('NOT_FOUND_HELPER'),) if x)
+    # -- failures propagate ---------------------------------------------------------------------------------------
+    bad, seen = [], set()
+    for e in list(o.must) + list(o.may):
+        if not (e.kind in MUTATING or (e.kind == 'CALLBACK' and set(cb_names([e])) & set(FALLIBLE_CBS))):
+            continue
+        for f, c in H.swallowed_levels(prog, sl, e, tolerant, dispatched=(RL,)):
+            k = (f.path, c.bb)
+            if k not in seen:
+                seen.add(k)
+                bad.append('%s in %s' % ((c.name or '?').split('::')[-1], f.path.split('::', 1)[-1]))
+    rep.check(not bad, 'R1', tag + '/errors-propagate', where, 'a failure of any mutation / callback on this row ends handle_layer with an error',
+              'row %s: a failure of %s can end in success (tolerated / discarded result)' % (r, sorted(set(bad))[:4]))
+    # -- confinement: nothing outside this layer's own directory / TOML / SBOM files is touched -------------------------
+    deleter = ROLES.get('DELETE')
+
+    def target(e):
+        # what happens inside the recursive remover that the delete routine hands a directory to is C01 / C11's subject
+        # (it stays below that directory and does not follow symlinks): here the directory handed over stands for
+        # everything the remover touches
+        for l in e.chain or ():
+            if isinstance(l, Link) and deleter and l.call.fn.path == deleter and l.call.args and l.call.name in prog.fns:
+                return E.subst(sl.operand(l.call.fn, l.call.args[0]), l.mapping or {})
+        return e.path
+    inside = lambda v: v is not None and LP.inside_layer(LP.classify(v))
+    out = [e for e in list(o.must) + list(o.may) if e.kind in MUTATING and not inside(e.path) and not inside(target(e))]
+    rep.check(not out, 'R1', tag + '/confined', where, 'every mutation on this row is inside <layers_dir>/<name>, <name>.toml or <name>.sbom.*',
+              'row %s also mutates %s' % (r, [(e.kind, vstr(e.path)[:60] if e.path is not None else '?') for e in out[:3]]))
+    if r == 'Keep':
+        def below_execd(k):
+            while k is not None and k[0] in ('SUB', 'CHILD'):
+                if k[0] == 'SUB' and k[1] == ('DIR',) and k[2] == 'exec.d':
+                    return True
+                k = k[1]
+            return False
+        bx = [e for e in o.may if e.kind in MUTATING and e.path is not None and below_execd(LP.classify(e.path))]
+        rep.check(not bx, 'R1', tag + '/frame-execd', where, 'exec.d programs untouched on keep', 'Keep arm can modify the exec.d directory')
+    # -- callback arguments ----------------------------------------------------------------------------------------
+    for e in o.must:
+        names = cb_names([e]) if e.kind == 'CALLBACK' else []
+        if not names or names[0] not in FALLIBLE_CBS or not e.args or len(e.args) < 3:
+            continue
+        m, a = names[0], strip(e.args[2])
+        if m == 'create':
+            ok = LP.classify(a) == ('DIR',)
+            want = 'the layer directory'
+        elif m in ('update', 'existing_layer_strategy'):
+            ok = a[0] == 'call' and a[1] == RL and LP.classify(('call', 'std::path::Path::join', (a[2][0], a[2][1]))) == ('DIR',)
+            want = 'the layer data read from disk'
+        else:
+            b = a
+            ok = b[0] == 'field' and b[2] == 'metadata' and strip(b[1])[0] == 'field' and strip(b[1])[2] == 'content_metadata' \
+                and strip(strip(b[1])[1])[0] == 'call' and strip(strip(b[1])[1])[1] == RL
+            want = 'the metadata read from disk'
+        rep.check(ok, 'R3', '%s/callback-arg/%s' % (tag, m), where, 'Layer::%s receives %s' % (m, want),
+                  'Layer::%s receives %s instead of %s' % (m, vstr(a)[:100], want))
+    if r == 'migrate':
+        return
+    # -- content of the TOML finally written -----------------------------------------------------------------------
+    wr = [e for e in must if e.kind == 'WRITE' and e.path is not None and LP.classify(e.path) == ('TOML',)]
+    if not wr:
+        rep.unproven('R3', tag + '/toml-content', where, 'no write of the layer TOML is certain on row %s' % r)
+        return
+    e = wr[-1]
+    # no further, conditional write of the TOML on this row (the reader's own normalisation of a missing file aside)
+    sure = {(q.call.fn.path, q.call.bb) for q in wr if q.call is not None}
+    extra = [q for q in may if q.kind in ('WRITE', 'RENAME') and q.path is not None and q.call is not None and LP.classify(q.path) == ('TOML',)
+             and (q.call.fn.path, q.call.bb) not in sure and not any(isinstance(l, Link) and l.call.name == RL for l in (q.chain or ()))]
+    rep.check(not extra, 'R3', tag + '/toml-single', where, 'the layer TOML is written by the certain write(s) only',
+              'row %s may write the layer TOML once more, conditionally: %s' % (r, [q.via() for q in extra[:2]]))
+    data = e.args[1] if e.args and len(e.args) > 1 else None
+    x = _toml_serialised(data) if data is not None else None
+    if x is None:
+        rep.unproven('R3', tag + '/toml-content', where, 'the layer TOML is not written as toml::to_string(<content metadata>): %s' % (vstr(data)[:120] if data else '?'))
+        return
+    while x[0] == 'unwrap':
+        x = x[1]
+    if x[0] == 'call' and x[1] in prog.fns:
+        x = sl.inline_deep(x, keep=OPAQUE())     # a private helper that only assembles the content metadata is transparent
+    if not (x[0] in ('agg', 'updated')):
+        rep.unproven('R3', tag + '/toml-content', where, 'serialised value is not a content-metadata aggregate: %s' % vstr(x)[:120])
+        return
+    types_v = strip(sl._field(x, 'types'))
+    meta_v = strip(sl._field(x, 'metadata'))
+    t_call = None
+    if types_v[0] == 'agg' and types_v[2] == 'Some' and len(types_v[3]) == 1 and _is_types_call(types_v[3][0][1]):
+        t_call = strip(types_v[3][0][1])
+    rep.check(t_call is not None, 'R3', tag + '/toml-types', where, 'the TOML written last carries types <- Some(layer.types())',
+              'row %s writes types %s to the layer TOML, not Some(layer.types())' % (r, vstr(types_v)[:100]))
+    if r in ('absent', 'Recreate', 'Update'):
+        cbname = T + ('update' if r == 'Update' else 'create')
+        m_ok = is_field_of_call(meta_v, 'metadata', cbname)
+        rep.check(m_ok, 'R3', tag + '/toml-metadata', where, 'the TOML written last carries the callback result\'s metadata',
+                  'row %s writes metadata %s to the layer TOML, not the result of %s' % (r, vstr(meta_v)[:100], cbname.split('::')[-1]))
+    else:
+        from_disk = find_call(meta_v, RL) is not None or any(
+            y[0] == 'call' and y[2] and LP.classify(y[2][0]) == ('TOML',) and H.reads_given_file(E, y[1]) for y in walk(meta_v))
+        m_ok = meta_v[0] == 'field' and meta_v[2] == 'metadata' and from_disk and \
+            not any(find_call(meta_v, T + n) for n in ('create', 'update'))
+        rep.check(m_ok, 'R3', tag + '/toml-metadata', where, 'the TOML written last carries the existing metadata',
+                  'Keep writes metadata %s to the layer TOML, not the existing one' % vstr(meta_v)[:100])
+    # -- the pure `types` callback is asked after the last callback that may change the layer value ---------------
+    if t_call is not None and len(t_call) == 4 and t_call[3]:
+        seq = list(o.must)
+        ti = [i for i, q in enumerate(seq) if q.kind == 'CALLBACK' and cb_names([q]) == ['types'] and q.call is not None
+              and (q.call.fn.path, q.call.bb) == tuple(t_call[3])]
+        oi = [(i, cb_names([q])[0]) for i, q in enumerate(seq) if q.kind == 'CALLBACK' and set(cb_names([q])) & set(FALLIBLE_CBS)]
+        if not ti:
+            rep.unproven('R1', tag + '/types-after-callbacks', where, 'the types() call whose value is written was not found among the certain effects')
+        else:
+            late = [n for i, n in oi if i > ti[-1]]
+            rep.check(not late, 'R1', tag + '/types-after-callbacks', where, 'layer.types() is asked after every `&mut self` callback of the row',
+                      'row %s: the written types are asked before Layer::%s runs (stale when the callback changes the layer value)' % (r, '/'.join(late)))
+
+
+BUILDER = 'libcnb::layer::trait_api::LayerResultBuilder::<M>::'
+SETTERS = {   # method -> (field, kind, receiver method of the container, parameter indices handed over in order)
+    'env': ('env', 'assign', None, (1,)),
+    'exec_d_program': ('exec_d_programs', 'call', ('std::collections::HashMap::', '::insert'), (1, 2)),
+    'sbom': ('sboms', 'call', ('std::vec::Vec::', '::push'), (1,)),
+}
+
+
+def builder_fidelity(rep, prog, sl, E):
+    """R7: what a callback assembles with LayerResultBuilder is what it returns — `new` starts from the given metadata and
+    nothing else, every setter changes exactly its own field (env <- Some(given), exec.d: insert(name, program) so that a
+    later entry for the same name wins like in any map, SBOMs: appended), `build*` copies every field."""
+    fns = {f.path[len(BUILDER):]: f for f in prog.find(r'^' + BUILDER.replace('<', r'\<').replace('>', r'\>') + r'\w+$') if f.kind != 'Closure'}
+    lr = prog.adt('libcnb::layer::trait_api::LayerResult')
+    fields = sorted(f['name'] for v in lr['variants'] for f in v['fields'])
+    isp = lambda v, f, i: v[0] == 'param' and v[1] == f.path and v[2] == i
+    for name, f in sorted(fns.items()):
+        rep.analysed(f)
+        where = '%s:%d' % (f.file, f.line)
+        key = 'builder/' + name
+        if name == 'new':
+            v = sl.local(f, 0)
+            d = dict(v[3]) if v[0] == 'agg' else {}
+            empty = lambda x: x is not None and x[0] == 'call' and not x[2] and x[1].endswith(('::new', '::default'))
+            ok = sorted(d) == fields and isp(strip(d['metadata']), f, 0) and d['env'][0] == 'agg' and d['env'][2] == 'None' \
+                and empty(d['exec_d_programs']) and empty(d['sboms'])
+            rep.check(ok, 'R7', key, where, 'starts from the given metadata, no env, no exec.d programs, no SBOMs', 'a fresh builder is ' + vstr(v)[:160])
+        elif name in ('build', 'build_unwrapped'):
+            v = sl.local(f, 0)
+            if name == 'build':
+                v = sl.inline_deep(H.unwrap_n(sl, v, 1))
+            d = dict(v[3]) if v[0] == 'agg' and (v[1] or '').endswith('::LayerResult') else {}
+            ok = sorted(d) == fields and all(d[k][0] == 'field' and d[k][2] == k and isp(d[k][1], f, 0) for k in d)
+            rep.check(ok, 'R7', key, where, 'every field of the builder is copied into the result', 'the built LayerResult is ' + vstr(v)[:160])
+        elif name in SETTERS:
+            field, kind, recv, pidx = SETTERS[name]
+            muts = H.self_mutations(f)
+            rv0 = sl.local(f, 0)
+            rv = rv0
+            while rv[0] == 'updated':
+                rv = rv[1]
+            if muts is not None and not muts and rv0[0] == 'agg' and kind == 'assign':
+                # `Self { env: Some(x), ..self }`: a new value, every other field taken over
+                d = dict(rv0[3])
+                val = d.get(field, ('unknown',))
+                ok = all(v[0] == 'field' and v[2] == k and isp(v[1], f, 0) for k, v in d.items() if k != field) and \
+                    val[0] == 'agg' and val[2] == 'Some' and isp(strip(val[3][0][1]), f, pidx[0])
+                rep.check(ok, 'R7', key, where, 'changes exactly `%s`, with the given value(s)' % field, 'LayerResultBuilder::%s returns %s' % (name, vstr(rv0)[:160]))
+                continue
+            if muts is None or not isp(rv, f, 0):
+                rep.unproven('R7', key, where, 'the effect of the setter on the builder is not understood')
+                continue
+            rets = f.return_blocks()
+            ok = len(muts) == 1 and muts[0][0] == ('.' + field,) and muts[0][1] == kind and all(f.dominates(muts[0][2], b) for b in rets) \
+                and not f.in_loop(muts[0][2])
+            why = 'changes %s' % [''.join(m[0]) + ':' + m[1] for m in muts]
+            if ok and kind == 'assign':
+                val = sl.operand(f, muts[0][3]['o']) if muts[0][3].get('r') == 'use' else ('unknown',)
+                ok = val[0] == 'agg' and val[2] == 'Some' and isp(strip(val[3][0][1]), f, pidx[0])
+                why = 'sets %s to %s' % (field, vstr(val)[:80])
+            elif ok:
+                c = muts[0][3]
+                nm = c.res or c.decl or ''
+                args = [strip(sl.operand(f, a)) for a in c.args[1:]]
+                if not (nm.startswith(recv[0]) and nm.endswith(recv[1])):
+                    rep.unproven('R7', key, where, 'LayerResultBuilder::%s changes `%s` through %s: not the plain %s the obligation is stated on'
+                                 % (name, field, nm, recv[1].strip(':')))
+                    continue
+                ok = len(args) == len(pidx) and all(isp(a, f, i) for a, i in zip(args, pidx))
+                why = 'calls %s(%s)' % (nm, ', '.join(vstr(a)[:40] for a in args))
+            rep.check(ok, 'R7', key, where, 'changes exactly `%s`, with the given value(s)' % field, 'LayerResultBuilder::%s %s' % (name, why))
+        else:
+            rep.unproven('R7', key, where, 'unknown builder method: its effect on the result is not covered')
+    for need in ('new', 'build_unwrapped') + tuple(SETTERS):
+        if need not in fns:
+            rep.unproven('R7', 'builder/' + need, '-', 'LayerResultBuilder::%s not found' % need)
+
+
 def run(ctx, rep):
     prog, sl = ctx.prog, ctx.slicer
     rep.rule('R1', 'dispatch table: must-effects and callbacks per strategy / migration decision')
@@ -65,6 +305,7 @@ def run(ctx, rep):
     rep.rule('R4', 'Keep/Replace switch semantics and replace-really-replaces for SBOMs and exec.d')
     rep.rule('R5', 'returned LayerData is re-read from disk after the last mutation')
     rep.rule('R6', 'env writer/reader agree on all four scopes')
+    rep.rule('R7', 'LayerResultBuilder carries what the callback put in unchanged into the LayerResult')
     rep.not_decided = ['byte equality of disk contents and callback data (toml/fs trusted)', 'behaviour of user callbacks']
     from . import layer_roles
     global HL, WL, RL
@@ -82,7 +323,9 @@ def run(ctx, rep):
             return True
         # layer_data.name of the layer just read with (LD, LN)
         return v[0] == 'field' and v[2] == 'name' and find_call(v[1], RL) is not None
-    LP = LayerPaths(is_ld, is_ln)
+    # `layer_data.path` of the layer just read is the layer directory (R5 reader/path establishes it)
+    is_layer_path = lambda v: v[0] == 'field' and v[2] == 'path' and strip(v[1])[0] == 'call' and strip(v[1])[1] == RL
+    LP = LayerPaths(is_ld, is_ln, dir_values=(is_layer_path,))
     kl = lambda e: LP.classify(e.path) if e.path is not None else None
     outs = outcomes(E, hl)
     rows = {}
@@ -144,14 +387,16 @@ def run(ctx, rep):
                 p_wr = pos('WRITE(TOML)')
                 rep.check(0 <= p_cb < p_wr, 'R1', tag + '/order', where, 'update -> write', 'row Update: expected update -> WRITE(TOML), extracted %s' % seq)
                 rep.check(cbs_may <= {'update'}, 'R2', tag + '/callbacks', where, 'only update can run', 'callbacks %s can run on the Update arm' % sorted(cbs_may))
-                bad = [e for e in may if e.kind in ('REMOVE_DIR', 'CHMOD') and kl(e) == ('DIR',)]
+                bad = [e for e in may if e.kind in DIR_TOUCH and kl(e) == ('DIR',)]
                 rep.check(not bad, 'R1', tag + '/no-delete', where, 'layer directory is not deleted on update', 'Update arm can delete the layer directory')
             elif r == 'Keep':
                 rep.check(pos('WRITE(TOML)') >= 0, 'R1', tag + '/types-rewrite', where, 'metadata (types) rewritten', 'Keep arm does not rewrite the layer TOML: %s' % seq)
                 rep.check(not cbs_may, 'R2', tag + '/callbacks', where, 'neither create nor update runs', 'callbacks %s can run on the Keep arm' % sorted(cbs_may))
-                bad = [e for e in may if (e.kind in ('REMOVE_DIR', 'CHMOD') and kl(e) == ('DIR',)) or (kl(e) and kl(e)[0] == 'SBOM' and e.kind in MUTATING)]
+                bad = [e for e in may if (e.kind in DIR_TOUCH and kl(e) == ('DIR',)) or (kl(e) and kl(e)[0] == 'SBOM' and e.kind in MUTATING)]
                 rep.check(not bad, 'R1', tag + '/frame', where, 'layer dir and SBOMs untouched on keep',
                           'Keep arm can modify %s' % [(e.kind, cls_str(kl(e))) for e in bad[:3]])
+            # ---- deepening: what the row carries -------------------------------------------------------
+            row_carries(rep, prog, sl, E, LP, ROLES, r, tag, where, o, must, may)
             # ---- R5 ----------------------------------------------------------------------------------
             if r != 'migrate':
                 rc = find_call(o.value, RL)
@@ -184,16 +429,21 @@ def run(ctx, rep):
     from .lib.tables import lifted_args
     rows3 = []
     seen_subj = {}
+    kinds_seen = set()
     for c0 in wl_calls:
         for f, c, a in lifted_args(prog, sl, c0, 'libcnb', stop_at=(hl.path,)):
             rows3.append((f, c, a, c0))
     rep.floor('R3', 'writer_call_sites', len(rows3))
     for f, c, a, c0 in rows3:
         env, lcm, ex, sb = strip(a[2]), strip(a[3]), strip(a[4]), strip(a[5])
+        if lcm[0] == 'call' and lcm[1] in prog.fns:
+            # a private helper that only assembles the content metadata is transparent
+            lcm = strip(sl.inline_deep(lcm, keep=OPAQUE()))
         kind = None
         for cbn in ('create', 'update'):
             if find_call(lcm, T + cbn) or find_call(env, T + cbn):
                 kind = cbn
+                kinds_seen.add(cbn)
         subj = '%s' % c0.fn.path.split('::')[-1]
         n = seen_subj.get(subj, 0)
         seen_subj[subj] = n + 1
@@ -242,6 +492,14 @@ def run(ctx, rep):
                 rep.check(m_ok, 'R3', subj + '/metadata', c.where(), 'metadata <- migrated metadata', 'ReplaceMetadata writes metadata from %s' % vstr(meta_v)[:100])
             else:
                 rep.unproven('R3', subj, c.where(), 'writer call on an unrecognised arm')
+    # the forwarding obligations above need their subject: a writer call fed from the result of each of create / update (a
+    # row that persists its result some other way is not covered by them)
+    for cbn in ('create', 'update'):
+        if cbn in kinds_seen:
+            rep.holds('R3', 'forwarding-subject/' + cbn, hl.file, 'the result of Layer::%s reaches the layer writer' % cbn)
+        else:
+            rep.unproven('R3', 'forwarding-subject/' + cbn, hl.file,
+                         'no call of the layer writer is fed from the result of Layer::%s: what that row persists (env, exec.d, SBOMs) is not covered' % cbn)
     # ---- R4 switch semantics ------------------------------------------------------------------------------
     wl = prog.fn(WL)
     rep.analysed(wl)
@@ -263,6 +521,10 @@ def run(ctx, rep):
         pv = strip(sl.operand(wl, c.args[2]))
         p_ok = pv[0] == 'field' and pv[2] == '0' and pv[1][0] == 'variant' and pv[1][2] == 'Replace' and strip(pv[1][1])[2] == pidx
         rep.check(p_ok, 'R4', 'writer/%s/payload' % short, c.where(), 'replaces with the Replace payload', 'replacement data is %s' % vstr(pv)[:80])
+        # nothing but the switch decides whether the replace routine runs (`Replace(vec![])` must still wipe the old set)
+        extra = [cd for cd in H.optional_conditions(E, wl, c.bb) if not (cd.kind == 'variant' and cd.enum == enum)]
+        rep.check(not extra, 'R4', 'writer/%s/only-switch' % short, c.where(), 'Replace(x) always runs the replace routine, whatever x is',
+                  '%s is skipped under a further condition: %s' % (short, [repr(cd) for cd in extra][:2]))
     # replace really replaces
     rs = prog.fn(ROLES['REPLACE_SBOMS'])
     rep.analysed(rs)
@@ -287,6 +549,20 @@ def run(ctx, rep):
     if rm and wr:
         order = [id(e) for e in must]
         rep.check(order.index(id(rm[0])) < order.index(id(wr[0])), 'R4', 'replace_sboms/order', '%s:%d' % (rs.file, rs.line), 'remove before write', 'SBOMs are removed after being written')
+    # where the SBOM of a format lives: <layers_dir>/<layer>.sbom.<cdx.json | spdx.json | syft.json> (CNB buildpack spec, "Layer
+    # Software-Bill-of-Materials"): the file the lifecycle reads as format F must hold the data the callback returned as F
+    spf = prog.fns.get(ROLES['SBOM_PATH'] or '')
+    if spf is None:
+        rep.unproven('R4', 'sbom-path/spec', '-', 'SBOM path constructor not found')
+    else:
+        rep.analysed(spf)
+        tbl = H.sbom_name_table(sl, spf)
+        want = {v: '{name}.sbom.' + SBOM_EXT[v] for v in all_variants if v in SBOM_EXT}
+        if tbl is None or sorted(all_variants) != sorted(SBOM_EXT):
+            rep.unproven('R4', 'sbom-path/spec', '%s:%d' % (spf.file, spf.line), 'SBOM file names are not <name> + per-format literal, or a format without spec entry exists: %s' % all_variants)
+        else:
+            rep.check(tbl == want, 'R4', 'sbom-path/spec', '%s:%d' % (spf.file, spf.line), 'every format is stored under its spec file name: %s' % sorted(tbl.items()),
+                      'SBOM file names %s differ from the spec table %s' % (sorted(tbl.items()), sorted(want.items())))
     rx = prog.fn(ROLES['REPLACE_EXECD'])
     rep.analysed(rx)
     lpx = LayerPaths(lambda v: v[0] == 'param' and v[1] == rx.path and v[2] == 0, lambda v: v[0] == 'param' and v[1] == rx.path and v[2] == 1)
@@ -305,6 +581,62 @@ def run(ctx, rep):
             c1, p1 = L.loop_element(k[2]) if not isinstance(k[2], str) else (None, None)
             c_ok = c1 is not None and strip(c1)[0] == 'param' and strip(c1)[2] == 2 and p1 == ('0',)
     rep.check(c_ok, 'R4', 'replace_exec_d/copy-each', '%s:%d' % (rx.file, rx.line), 'each program copied to exec.d/<its name>', 'exec.d copy target is not <layer>/exec.d/<name>')
+    if len(cp) == 1:
+        e = cp[0]
+        top = e.chain[0] if e.chain else e.call
+        top = top.call if isinstance(top, Link) else top
+        every, why = (False, 'the copy is not reached from the body of replace_layer_exec_d_programs')
+        if top is not None and top.fn.path == rx.path:
+            is_copy = lambda q: q.kind == 'WRITE' and q.call is not None and q.call.is_('std::fs::copy')
+            every, why = H.certain_for_every_element(E, rx, top, is_copy)
+            if every and H.swallowed_levels(prog, sl, e, ()):
+                every, why = False, 'a failed copy is tolerated'
+        rep.check(every, 'R4', 'replace_exec_d/copy-every', '%s:%d' % (rx.file, rx.line), 'every given program is copied (or the call fails)',
+                  'not every exec.d program of the result is copied: ' + why)
+        src = H.peel_some(e.args[0]) if e.args else None
+        c2, p2 = L.loop_element(src) if src is not None else (None, None)
+        s_ok = c2 is not None and strip(c2)[0] == 'param' and strip(c2)[2] == 2 and p2 == ('1',)
+        rep.check(s_ok, 'R4', 'replace_exec_d/copy-source', '%s:%d' % (rx.file, rx.line), 'each program is copied from its own source path',
+                  'exec.d copy source is %s, not the path given for the program' % (vstr(src)[:80] if src is not None else '?'))
+    # ---- R5 reader composition: the returned LayerData is what is on disk -------------------------------------
+    import re
+    rl = prog.fn(RL)
+    rep.analysed(rl)
+    rwhere = '%s:%d' % (rl.file, rl.line)
+    lpr = LayerPaths(lambda v: v[0] == 'param' and v[1] == rl.path and v[2] == 0, lambda v: v[0] == 'param' and v[1] == rl.path and v[2] == 1)
+    ldv = H.deep_fields(sl, H.unwrap_n(sl, sl.local(rl, 0), 2, keep=(L.R_LAYER,)), keep=(L.R_LAYER,))
+    if not (ldv[0] == 'agg' and (ldv[1] or '').endswith('::LayerData')):
+        rep.unproven('R5', 'reader/shape', rwhere, 'the layer data returned by the reader is not understood: ' + vstr(ldv)[:160])
+    else:
+        fd = dict(ldv[3])
+        nv = fd.get('name', ('unknown',))
+        rep.check(nv[0] == 'param' and nv[1] == rl.path and nv[2] == 1, 'R5', 'reader/name', rwhere, 'name <- the layer name asked for',
+                  'returned name is ' + vstr(nv)[:80])
+        rep.check(lpr.classify(fd.get('path')) == ('DIR',), 'R5', 'reader/path', rwhere, 'path <- <layers_dir>/<name>', 'returned path is ' + vstr(fd.get('path', ('unknown',)))[:80])
+        ev = fd.get('env', ('unknown',))
+        e_ok = ev[0] == 'unwrap' and ev[1][0] == 'call' and ev[1][1] == L.R_LAYER and len(ev[1][2]) == 1 and lpr.classify(ev[1][2][0]) == ('DIR',)
+        rep.check(e_ok, 'R5', 'reader/env', rwhere, 'env <- LayerEnv::read_from_layer_dir(<layer dir>), a read failure fails the reader',
+                  'returned env is %s: not (only) what read_from_layer_dir finds in the layer directory' % vstr(ev)[:120])
+        cv = fd.get('content_metadata', ('unknown',))
+        c_ok = False
+        if cv[0] == 'unwrap' and cv[1][0] == 'call' and re.match(r'^toml::(de::)?from_(str|slice)$', cv[1][1]) and len(cv[1][2]) == 1:
+            src = cv[1][2][0]
+            c_ok = src[0] == 'unwrap' and src[1][0] == 'call' and src[1][1] in ('std::fs::read_to_string', 'std::fs::read') and lpr.classify(src[1][2][0]) == ('TOML',)
+        rep.check(c_ok, 'R5', 'reader/content_metadata', rwhere, 'content_metadata <- the parsed <name>.toml',
+                  'returned content metadata is %s: not the parsed layer TOML' % vstr(cv)[:120])
+    ents = prog.find(ENTRY)
+    if len(ents) != 1:
+        rep.unproven('R5', 'entry/passthrough', hl.file, 'BuildContext::handle_layer not found')
+    else:
+        ent = ents[0]
+        rep.analysed(ent)
+        rv = H.unwrap_n(sl, sl.local(ent, 0), 1, keep=(HL,))
+        ok = rv[0] == 'unwrap' and rv[1][0] == 'call' and rv[1][1] == HL and \
+            all(a[0] == 'param' and a[1] == ent.path and a[2] == i for i, a in enumerate(rv[1][2]))
+        rep.check(ok, 'R5', 'entry/passthrough', '%s:%d' % (ent.file, ent.line), 'BuildContext::handle_layer returns what the handler returns',
+                  'BuildContext::handle_layer returns %s' % vstr(rv)[:120])
+    # ---- R7 ----------------------------------------------------------------------------------------------
+    builder_fidelity(rep, prog, sl, E)
     # ---- R6 ----------------------------------------------------------------------------------------------
     wf, wt, wcalls = H.writer_scope_table(prog, sl)   # L.writer_scope_table on VecEffects
     from . import C03_helpers as H3   # the generalised reader table (helpers, collected pipelines)
